@@ -9194,14 +9194,9 @@ class SVG(Group):
                 if "*" in styles:  # Select all.
                     style += styles["*"]
                 if tag in styles:  # selector type
+                    if len(style) != 0:
+                        style += ";"
                     style += styles[tag]
-                if SVG_ATTR_ID in attributes:  # Selector id #id
-                    svg_id = attributes[SVG_ATTR_ID]
-                    css_tag = "#%s" % svg_id
-                    if css_tag in styles:
-                        if len(style) != 0:
-                            style += ";"
-                        style += styles[css_tag]
                 if SVG_ATTR_CLASS in attributes:  # Selector class .class
                     for svg_class in attributes[SVG_ATTR_CLASS].split(" "):
                         css_tag = ".%s" % svg_class
@@ -9217,6 +9212,13 @@ class SVG(Group):
                             if len(style) != 0:
                                 style += ";"
                             style += styles[css_tag]
+                if SVG_ATTR_ID in attributes:  # Selector id #id, more specific than any class selector
+                    svg_id = attributes[SVG_ATTR_ID]
+                    css_tag = "#%s" % svg_id
+                    if css_tag in styles:
+                        if len(style) != 0:
+                            style += ";"
+                        style += styles[css_tag]
                 # Split style element into parts; priority highest
                 if SVG_ATTR_STYLE in attributes:
                     if len(style) != 0:
